@@ -21,6 +21,8 @@ package main
 //                                                phases of the client responses overlap; Write reads its argument only
 //                                                after the barrier, as io.Writer permits
 // Output: space separated  P<k>=..  C<k>=..  A<k>=..  avail=<len(idToSnowflake)> heapU=<n> heapR=<n> gauge=<sum> freshR=.. freshU=..
+//         tP<k>=<sent>:<seen registered>:<returned>  tC<k>=<sent>:<returned>   (ms since scenario start, -1 = never; the
+//         registration time is an upper bound: the id map is polled every ms while the poll is outstanding)
 
 import (
 	"bufio"
@@ -292,6 +294,19 @@ func vbRunScenario(args []string) string {
 		}
 	}
 	set := func(k, v string) { mu.Lock(); results[k] = v; mu.Unlock() }
+	times := map[string][]int64{}
+	stamp := func(k string, slot int, t time.Time, start time.Time) {
+		mu.Lock()
+		v := times[k]
+		if v == nil {
+			v = []int64{-1, -1, -1}
+			times[k] = v
+		}
+		if v[slot] < 0 {
+			v[slot] = t.Sub(start).Milliseconds()
+		}
+		mu.Unlock()
+	}
 	// Sequenced mode (event Q): an event scheduled at time t is not launched before the effects of the events
 	// scheduled at least 100 ms earlier have taken place (poll registered; poll expired when its 10 s are over;
 	// client / answer arrived), so that a loaded machine cannot reorder well-separated events. Herds do not use it.
@@ -409,12 +424,32 @@ func vbRunScenario(args []string) string {
 			switch e.kind {
 			case 'P':
 				cl, _ := strconv.Atoi(e.f[3])
+				stamp("t"+key, 0, time.Now(), start)
+				stop := make(chan struct{})
+				go func() {
+					for {
+						if registered(e.f[0]) {
+							stamp("t"+key, 1, time.Now(), start)
+							return
+						}
+						select {
+						case <-stop:
+							return
+						case <-time.After(time.Millisecond):
+						}
+					}
+				}()
 				res, got := vbDoPoll(i, e.f[0], e.f[1], e.f[2], cl)
+				close(stop)
+				stamp("t"+key, 2, time.Now(), start)
 				set(key, res)
 				mark(key, true)
 				pollDone[e.k] <- got
 			case 'C':
-				set(key, vbDoClientW(i, e.f[0], e.f[1], e.f[2], e.f[3], bar))
+				stamp("t"+key, 0, time.Now(), start)
+				res := vbDoClientW(i, e.f[0], e.f[1], e.f[2], e.f[3], bar)
+				stamp("t"+key, 2, time.Now(), start)
+				set(key, res)
 			case 'A':
 				set(key, vbDoAnswer(i, e.f[0], e.f[1]))
 			case 'I':
@@ -479,6 +514,19 @@ func vbRunScenario(args []string) string {
 	var out []string
 	for _, k := range keys {
 		out = append(out, k+"="+results[k])
+	}
+	tkeys := make([]string, 0, len(times))
+	for k := range times {
+		tkeys = append(tkeys, k)
+	}
+	sort.Strings(tkeys)
+	for _, k := range tkeys {
+		v := times[k]
+		if k[1] == 'P' {
+			out = append(out, fmt.Sprintf("%s=%d:%d:%d", k, v[0], v[1], v[2]))
+		} else {
+			out = append(out, fmt.Sprintf("%s=%d:%d", k, v[0], v[2]))
+		}
 	}
 	mu.Unlock()
 	out = append(out, fmt.Sprintf("avail=%d heapU=%d heapR=%d gauge=%d", avail, hu, hr, vbGaugeSum(ctx)))
